@@ -746,10 +746,10 @@ func TestVerif_C11(t *testing.T) {
 		}
 	}
 	refreshCases, refreshIdx := c11RefreshFormStage(env, res, keys, roleCA, mint)
-	seqCases, seqIdx := c11ResumeStage(env, res, keys, roleCA, mint)
 	if verifThorough() {
-		c11RealTLSResume(env, res, keys, mint)
+		c11RealTLSResume(env, res, keys, mint) // first: its few hits must not fall under the cap on recorded hits
 	}
+	seqCases, seqIdx := c11ResumeStage(env, res, keys, roleCA, mint)
 	malformedCases = verifCorruptExtensionProbe(env, res, keys, "C11")
 	// Coq
 	var sb strings.Builder
